@@ -277,6 +277,10 @@ func toBitsList(bitDefintions []*meta.Bit, v interface{}) (val.BitsList, error) 
 }
 
 func toBitsValueHandler[V int | uint | int64 | float64](bitDefintions []*meta.Bit, v V) (val.Bits, error) {
+	if v < 0 || V(uint64(v)) != v {
+		// negative, with a fraction or beyond 64 bits
+		return val.Bits{}, fmt.Errorf("%v is not a set of bit positions", v)
+	}
 	return toBits(bitDefintions, uint64(v))
 }
 
@@ -299,6 +303,13 @@ func toBits(bitDefintions []*meta.Bit, v interface{}) (val.Bits, error) {
 		}
 		return result, nil
 	case uint64: // positions only
+		var defined uint64
+		for _, bitDef := range bitDefintions {
+			defined = defined | (1 << bitDef.Position)
+		}
+		if x&^defined != 0 {
+			return result, fmt.Errorf("%d sets bit positions that are not defined", x)
+		}
 		for _, bitDef := range bitDefintions {
 			if x&(1<<bitDef.Position) != 0 {
 				result.Positions = result.Positions | (1 << bitDef.Position)
